@@ -37,7 +37,11 @@ export -f job; export S
 ls /verif/seeded | grep -E "${PAT:-.}" | xargs -P $J -I{} bash -c 'job {}'
 mkdir -p /verif/selftest
 python3 - <<'PY'
-import glob,os,json,datetime
+import glob,os,json
+# results are kept per seeded change in selftest/results.json, so that a partial run
+# (pattern) updates its entries and RESULTS.md always lists every seeded change
+store='/verif/selftest/results.json'
+allres=json.load(open(store)) if os.path.exists(store) else {}
 rows=[]
 for f in sorted(glob.glob('/tmp/vself/out/*')):
     if f.endswith('.log'): continue
@@ -48,24 +52,28 @@ for f in sorted(glob.glob('/tmp/vself/out/*')):
         else:
             rows.append((l.split()[0],'-',-1,l))
 byid={}
-for id,p,rc,what in rows: byid.setdefault(id,[]).append((p,rc,what))
+for id,p,rc,what in rows: byid.setdefault(id,[]).append([p,rc,what])
+allres.update(byid)
+allres={k:v for k,v in allres.items() if os.path.exists('/verif/seeded/%s/meta.json'%k)}
+json.dump(allres,open(store,'w'),indent=0,sort_keys=True)
 out=["# Mutation self-test results","",
 "Every seeded change (independent sub-agent mutants `Cxx-m*`, reverts of the `fix:` commits `revert-F*`) is applied to a scratch worktree and the quick checks are run against it (`tools/selftest.sh`). `killed` = the check exits 1 with a VIOLATION line.","",
 "| seeded change | property | check | result | first violation reported |","|---|---|---|---|---|"]
 killed=0
-for id in sorted(byid):
+for id in sorted(allres):
     meta=json.load(open('/verif/seeded/%s/meta.json'%id))
-    k=[p for p,rc,_ in byid[id] if rc==1]
+    k=[p for p,rc,_ in allres[id] if rc==1]
     if k: killed+=1
-    for p,rc,what in byid[id]:
+    for p,rc,what in allres[id]:
         r={1:'**killed**',0:'survived',2:'check broken'}.get(rc,'error')
         out.append("| %s | %s | %s | %s | %s |"%(id,meta['property'],p,r,what.replace('|','/')))
-    meta['killed_by']=k
-    json.dump(meta,open('/verif/seeded/%s/meta.json'%id,'w'),indent=1)
-out.insert(3,"Summary: %d of %d seeded changes killed by at least one check."%(killed,len(byid)))
+    if id in byid:
+        meta['killed_by']=k
+        json.dump(meta,open('/verif/seeded/%s/meta.json'%id,'w'),indent=1)
+out.insert(3,"Summary: %d of %d seeded changes killed by at least one check."%(killed,len(allres)))
 out.insert(4,"")
 open('/verif/selftest/RESULTS.md','w').write('\n'.join(out)+'\n')
-print("killed %d of %d"%(killed,len(byid)))
+print("this run: killed %d of %d; overall %d of %d"%(sum(1 for id in byid if [1 for p,rc,_ in byid[id] if rc==1]),len(byid),killed,len(allres)))
 for id in sorted(byid):
     if not [1 for p,rc,_ in byid[id] if rc==1]: print("  SURVIVED:",id,byid[id])
 PY
